@@ -18,6 +18,7 @@ RULE = ("case = random hook-instrumented class family: 3-6 dataclasses (mixin of
         "must run before the fields are read (it removes a poisoned key), hook return values must be used, and the context "
         "object must be the same at every opted-in node. First calls on fresh families are included (lazy / forward "
         "references). distinct_nontrivial = distinct (family shape, entry point, value shape) triples.")
+RULE += " Additions: hooks on the base of a class-level discriminator; subclasses adding nothing but hooks."
 ASSUMPTIONS = ["traces are recorded by the generated user hooks themselves; ids are compared while the objects are alive"]
 BUDGET_S = {"quick": 180, "thorough": 1500}
 MIN_EVENTS = {"quick": {"evaluations": 6000, "ser_trace_agree": 3000, "de_trace_agree": 2500, "hook_events": 60000, "context_nodes_checked": 3000},
